@@ -133,6 +133,19 @@ def r2(cx):
     if first is None:
         cx.violation(ck, "conditional-put-modes", "no put_opts in put_with_cas is free of PutMode::Overwrite", [])
         return
+    # a PUT that was applied is reported as success: from the success edge of the conditional put_opts no Err exit is reachable (a "conflict" reported after the write took
+    # effect makes cas_retry! run the whole body again on top of a catalog that already holds its effect)
+    ps_, pf_ = M.outcome_edges(b, first)
+    errx = {e[0] for e in M.exit_defs(b) if e[2] == "err"}
+    leak = None
+    for e in ps_:
+        if errx & (b.reachable(e[1]) | {e[1]}):
+            leak = e
+    if ps_ and leak is None:
+        cx.passed(ck, "applied-put-is-success", [b.sp(first)])
+    elif ps_:
+        cx.violation(ck, "applied-put-is-success", "%s: after the conditional PUT succeeded put_with_cas can still return an error: the retry loop then repeats the mutation on a catalog that already "
+                     "contains it (a swap fails with 'source no longer in catalog' although it was applied; a registration is indexed twice)" % b.sp(leak[0]), [b.sp(leak[0])])
     # Update carries the expected token; Create only on the == "none" edge
     upd = M.aggregates(b, lambda rv: rv.get("ak") == "adt" and rv.get("adt") == "object_store::UpdateVersion")
     okv = False
@@ -541,3 +554,26 @@ def r10(cx):
     m.r5(cx)
     cx.obligations = ob0 + len(cx.instances[ib:])
     cx.discharged = di0 + len([i for i in cx.instances[ib:] if i["verdict"] == "holds"])
+
+
+@rule("C02", "R11", "a loader never turns a failed read into empty content: in load_catalog_with_etag no Ok exit is reachable from the failure edge of a legacy-file read - a catalog created "
+      "from 'nothing' because one GET failed permanently drops every chunk the legacy files hold (and, if only one of the two reads failed, writes a version whose chunk list and "
+      "time index disagree)")
+def r11(cx):
+    fk = S3 + "::load_catalog_with_etag"
+    ck = cx.prog.code_key(fk)
+    b = cx.body(ck)
+    if b is None:
+        cx.violation(fk, "anchor-missing", "body not found", [])
+        return
+    reads = M.find_calls(b, lambda c: c in (S3 + "::load_chunk_metadata_with_etag", S3 + "::load_time_index_with_etag"))
+    if not cx.floor("legacy reads in load_catalog_with_etag", len(reads), 2, ck):
+        return
+    okx = {e[0] for e in M.exit_defs(b) if e[2] == "ok"}
+    for i, r in enumerate(reads):
+        s, f = M.outcome_edges(b, r)
+        leak = [e for e in f if okx & (b.reachable(e[1]) | {e[1]})]
+        if s and not leak:
+            cx.passed(fk, "legacy-read-failure-propagates@%d" % i, [b.sp(r)])
+        else:
+            cx.violation(fk, "legacy-read-failure-propagates@%d" % i, "%s: when this read of a legacy catalog file fails the loader still returns a catalog (without that file's content)" % b.sp(r), [b.sp(r)])
